@@ -29,6 +29,8 @@ THEOREMS = [
     "C12_seat_exact",
     "C12_replace_keeps_invariant",
     "C12_replace_refused_noop",
+    "C12_restore_insert",
+    "C12_load_in_place",
     "C12_flow_derivation",
     "C12_firing_order",
     "C12_ditch_without_disconnect_witness",
@@ -235,8 +237,10 @@ class _G:
         pa = self.lay.rows[a][1]
         k = rng.choice([1, 1, 1, 2, 3]) if k is None else k
         bs = [rng.choice(self.conj_of(a)) if rng.random() < valid else rng.choice(self.ids) for _ in range(k)]
+        if rng.random() < 0.12:  # the same partner named twice in one call
+            bs.insert(rng.randrange(len(bs) + 1), rng.choice(bs))
         how = "method"
-        if k == 1:
+        if len(bs) == 1:
             pb = self.lay.rows[bs[0]][1]
             if {pa, pb} == {"inputs", "outputs"}:
                 how = rng.choice(["method", "assign", "kw", "wfassign", "wfkw", "method"])
@@ -284,8 +288,10 @@ class _G:
             self.ops.append(["pull", rng.randrange(2, N_OBJ)])
         elif r < 0.98:
             self.ops.append(["runnode", rng.randrange(2, N_OBJ)])
-        elif r < 0.99:
+        elif r < 0.985:
             self.ops.append(["roundtrip", rng.choice(COMPOSITES)])
+        elif r < 0.993:
+            self.construct()
         else:
             self.ops.append(rng.choice([["startv", 5], ["inject", rng.randrange(2, N_OBJ), rng.randrange(3),
                                                          rng.randrange(4), rng.randrange(N_OBJ)]]))
@@ -295,6 +301,25 @@ class _G:
         obj = rng.randrange(N_OBJ) if obj is None else obj
         self.ops.append(["odisc", obj, rng.choice(["inputs", "outputs", "sin", "sout", "signals", "node", "node",
                                                    "run", "crun"])])
+
+    def construct(self):
+        """a node made with connections given as keywords; a later keyword may be refused"""
+        rng = self.rng
+        outs = self.lay.by_kind["outputs"]
+        labs = rng.sample(["i", "s", "u", "b"], rng.randint(1, 3))
+        items = [[lab, rng.choice(outs)] for lab in labs]
+        r = rng.random()
+        if r < 0.25:
+            items.append([rng.choice([l for l in ["i", "s", "u", "b"] if l not in labs] or ["zz"]),
+                          rng.choice(["badint", "badstr"])])
+        elif r < 0.4:
+            items.append(["zz", rng.choice(outs)])
+        elif r < 0.5:
+            items.append([rng.choice(["i", "s"]), rng.choice(self.lay.by_kind["sout"] + self.lay.by_kind["inputs"])]
+                         if items[-1][0] not in ("i", "s") else ["b", "badstr"])
+        seen = set()
+        items = [it for it in items if not (it[0] in seen or seen.add(it[0]))]
+        self.ops.append(["construct", rng.choice([-1, 0, 1, 5, 0]), rng.choice(CAND_CLASSES), items])
 
     def state_op(self):
         rng = self.rng
@@ -524,6 +549,22 @@ def _gen_lifecycle(rng, tier):
     for _ in range(rng.randint(0, 3)):
         c = rng.choice(lay.own(6) + lay.own(7))
         g.connect_pair(c, rng.choice(g.conj_of(c)))
+    if rng.random() < 0.35:
+        # hand-wired `failed` / extra signals among siblings, then a flow derivation that must refuse (data cycle,
+        # or an upstream outside the workflow): the recovery has to put EVERY list back
+        w, kids = rng.choice([(0, [2, 3, 4]), (1, [8, 9])])
+        for _ in range(rng.randint(1, 3)):
+            x, y = rng.sample(kids, 2)
+            outs = [c for c in lay.panel(x, "sout") if lay.rows[c][2] != "ran" or rng.random() < 0.3]
+            g.connect_pair(rng.choice(outs), rng.choice(lay.panel(y, "sin")))
+        x, y = rng.sample(kids, 2)
+        if rng.random() < 0.7:
+            g.connect_pair(lay.key[(y, "inputs", "u")], lay.panel(x, "outputs")[0])
+            g.connect_pair(lay.key[(x, "inputs", "u")], lay.panel(y, "outputs")[0])
+        else:
+            g.connect_pair(lay.key[(x, "inputs", "u")], lay.panel(12, "outputs")[0])
+        g.ops.append(["runwf", w])
+        g.ops.append(["query", x])
     for _ in range(rng.randint(2, 6)):
         r = rng.random()
         if r < 0.22:
@@ -538,8 +579,10 @@ def _gen_lifecycle(rng, tier):
             g.ops.append(["inject", rng.randrange(2, N_OBJ), rng.randrange(3), rng.randrange(4), rng.randrange(N_OBJ)])
         elif r < 0.66:
             g.ops.append(["fornode", rng.choice(WFS), rng.randrange(6), rng.randrange(2 * N_OBJ)])
-        elif r < 0.74:
+        elif r < 0.72:
             g.ops.append(["reload", rng.choice([2, 3, 4, 5, 6, 7, 8, 9, 12])])
+        elif r < 0.79:
+            g.construct()
         elif r < 0.82:
             g.ops.append(["runwf", rng.choice(WFS)])
         elif r < 0.89:
@@ -630,8 +673,13 @@ def corpus():
     def mk(cands, ops, maps=None, nonstrict=(), family="corpus"):
         lay = Layout(cands)
         out = []
+        def tr(x):
+            if isinstance(x, tuple):
+                return lay.cid(*x)
+            return [tr(y) for y in x] if isinstance(x, list) else x
+
         for op in ops:
-            out.append([lay.cid(*x) if isinstance(x, tuple) else x for x in op])
+            out.append([tr(x) for x in op])
         return {"family": family, "cands": list(cands), "maps": maps or _NOMAP,
                 "nonstrict": [lay.cid(*x) if isinstance(x, tuple) else x for x in nonstrict], "ops": out}
 
@@ -693,6 +741,18 @@ def corpus():
         ["connect", "method", ("b", "inputs", "u"), ("ma", "outputs", "oi")],
         ["startv", 5],
         ["finish", 5],
+    ])
+    # constructors whose later keyword is refused: with a parent (cleaned up) and without (KF-C12-5)
+    yield mk(["TA", "TA"], [
+        ["construct", 0, "TA", [["i", ("b", "outputs", "oi")], ["b", "badstr"]]],
+        ["construct", -1, "TE", [["i", ("e", "outputs", "oi")], ["b", "badstr"]]],
+        ["connect", "method", ("a", "inputs", "u"), ("b", "outputs", "os"), ("b", "outputs", "os")],
+    ])
+    # a macro loads its saved state in place while one of its body nodes is wired to the outside (KF-C12-3/4)
+    yield mk(["TA", "TA"], [
+        ["connect", "method", ("a", "inputs", "s"), ("ma", "outputs", "oi")],
+        ["reload", 5],
+        ["query", 2],
     ])
     # refused copies with a connection that existed before (witnesses of the undo-log finding)
     yield mk(["TA", "TA"], [
@@ -771,7 +831,7 @@ def _fmt_flags(fl):
 
 
 TRACED = ("readd", "start", "startv", "finish", "boom", "runnode", "runwf", "pull", "roundtrip", "inject", "fornode",
-          "reload")
+          "reload", "construct")
 
 
 class _Trace:
@@ -951,6 +1011,17 @@ def _run_impl(case, T):
     def discover():
         """close the table under `children` and under `connections`: every channel any live list mentions is scanned"""
         new = []
+        for oi, o in enumerate(list(objs)):
+            # an owner whose panels hold channel objects the table has not seen (a load replaced them)
+            panels = [] if isinstance(o, Workflow) else [("inputs", o.inputs), ("outputs", o.outputs)]
+            panels += [("sin", o.signals.input), ("sout", o.signals.output)]
+            for pname, io in panels:
+                for label, ch in io.items():
+                    if id(ch) not in index:
+                        index[id(ch)] = len(obj)
+                        new.append(len(obj))
+                        obj.append(ch)
+                        xrows.append((oi, pname, label))
         again = True
         while again:
             again = False
@@ -1143,6 +1214,9 @@ def _run_impl(case, T):
             if kind == "connect":
                 how, a, bs = op[1], op[2], op[3:]
                 A = obj[a]
+                if how != "method" and any(lay.rows[x][0] in reloaded for x in (a, *bs)):
+                    how = "method"  # sugar goes through the owner's CURRENT panels; these ids name the old channel objects
+                st["how"] = how
                 if how == "method" or len(bs) != 1:
                     A.connect(*[obj[b] for b in bs])
                 else:
@@ -1292,6 +1366,24 @@ def _run_impl(case, T):
             elif kind == "pull":
                 modelled = False
                 guarded(lambda: (sched.drain(), objs[op[1]].pull()))
+            elif kind == "construct":
+                modelled = False
+                from . import nodes_c12 as N
+
+                par, cls, items = op[1], op[2], op[3]
+                if cls not in CAND_CLASSES or par not in (-1, 0, 1, 5):
+                    raise _Malformed()
+                kwargs = {}
+                for lab, src in items:
+                    if isinstance(src, int):
+                        if not 0 <= src < lay.n:
+                            raise _Malformed()
+                        kwargs[lab] = obj[src]
+                    else:
+                        kwargs[lab] = {"badint": "not an int", "badstr": 5, "none": None}.get(src, src)
+                made = getattr(N, cls)(label=f"new{len(keep)}", parent=None if par < 0 else objs[par], **kwargs)
+                made.recovery = None
+                keep.append(made)
             elif kind == "reload":
                 modelled = False
                 X = objs[op[1]]
@@ -1389,6 +1481,23 @@ def _run_impl(case, T):
             except Exception as e:  # noqa: BLE001
                 st["discover_exc"] = type(e).__name__
             st["new_chans"] = [[c, KINDS[xrows[c - lay.n][1]], xrows[c - lay.n][0]] for c in range(before, len(obj))]
+            # hint verdicts for pairs with a new data channel (plain issubclass on the hints the channels carry)
+            def hint(c):
+                h = lay.rows[c][3] if c < lay.n else getattr(obj[c], "type_hint", None)
+                return h if isinstance(h, type) else None
+
+            def panel(c):
+                return lay.rows[c][1] if c < lay.n else xrows[c - lay.n][1]
+
+            inv = []
+            fresh = range(before, len(obj))
+            for a in range(len(obj)):
+                if panel(a) != "inputs" or hint(a) is None or not getattr(obj[a], "strict_hints", True):
+                    continue
+                for b in (range(len(obj)) if a >= before else fresh):
+                    if panel(b) == "outputs" and hint(b) is not None and not issubclass(hint(b), hint(a)):
+                        inv.append([a, b])
+            st["new_invalid"] = inv
             st["trace"] = trace_lines()
         if res.startswith("exc:") or res in ("typeErr", "connErr", "locked"):
             rep = None
@@ -1533,12 +1642,14 @@ def model_input(case, impl=None):
             # outside the modelled alphabet: replay the primitive calls it was seen to make, compare the outcome
             for c, k, o in st.get("new_chans", []):
                 lines.append(f"chan {c} {k} {o}")
+            for a, b in st.get("new_invalid", []):
+                lines.append(f"invalid {a} {b}")
             lines += [t for t in st.get("trace", []) if not t.startswith("#")]
             lines.append("t-show")
             continue
         if op[0] == "connect":
             a, bs = op[2], op[3:]
-            how = op[1]
+            how = st.get("how", op[1])
             if how == "method" or len(bs) != 1:
                 lines.append(f"connect {a} " + " ".join(map(str, bs)))
             else:
@@ -1651,7 +1762,8 @@ def oracle(case, r):
     injected = False
     fails += _invariants(lay, prev, -1, ["init"])
     for k, st in enumerate(r["states"]):
-        if any(f["signature"].get("cause") != "by-value-merge" for f in fails):
+        if any(f["signature"].get("cause") not in ("by-value-merge", "load-in-place")
+               and f["clause"] != "refused-construct-changed-state" for f in fails):
             break  # (the listed merge-back finding does not hide what comes after it)
         snap, op, res = st["snap"], st["op"], st["res"]
         if op[0] == "lock":
@@ -1718,7 +1830,8 @@ def oracle(case, r):
             for o, (p0, p1) in enumerate(zip(prev_parents, st["parents"])):
                 if p0 != -1 and p1 == -1:
                     mine_set = set(lay.own(o))
-                    cause = "by-value-merge" if p0 in (st.get("merged") or []) else None
+                    cause = ("by-value-merge" if p0 in (st.get("merged") or []) else
+                             "load-in-place" if op[0] == "reload" and p0 == op[1] else None)
                     for a, l in enumerate(snap):
                         if a not in mine_set and mine_set & set(l):
                             fails.append(_f("removed-node-still-referenced", k, op,
@@ -1744,6 +1857,11 @@ def oracle(case, r):
         if op[0] == "replace" and refused and st.get("cand_clean") and any(snap[c] for c in lay.own(op[2])):
             if not any(f["clause"] == "refused-copy-changed-state" for f in fails):
                 fails.append(_f("refused-replacement-left-connected", k, op, res, exc=st.get("exc")))
+        if op[0] == "construct" and refused and snap != prev:
+            fails.append(_f("refused-construct-changed-state", k, op,
+                            f"{res}: the constructor raised, yet destroyed {sorted(map(sorted, destroyed))}, left behind "
+                            f"{sorted(map(sorted, created))}", exc=st.get("exc"), parented=op[1] >= 0,
+                            left_new=bool(created), lost=bool(destroyed)))
         if op[0] in ("copyconns", "copyio") and res == "ok" and destroyed:
             fails.append(_f("copy-destroyed-a-connection", k, op, f"{sorted(map(sorted, destroyed))}"))
         prev, prev_parents = snap, st["parents"]
